@@ -56,18 +56,26 @@ Ltac step :=
       eapply wp_bind; [apply (wp_skip_while s pan Hgood); [assumption | unfold lfuel; lia]|];
       let st' := fresh "st" in intros st' (? & ? & ? & ? & ?)
   | |- LexerBase.wp _ (bind (slice _ _ _) _) _ =>
-      eapply wp_bind; [apply (wp_slice s pan) | intros _ _]
+      eapply wp_bind; [apply (wp_slice s pan Hgood) | intros _ _]
   | |- LexerBase.wp _ (bind (at_byte _ _ _) _) _ =>
       eapply wp_bind; [apply (wp_at_byte s pan)|];
       let g := fresh "g" in intros g ?; destruct g
   | |- LexerBase.wp _ (bind (current _ _) _) _ =>
-      eapply wp_bind; [apply (wp_current s pan); lia|]; intros ? ?
+      eapply wp_bind; [apply (wp_current s pan); lia|]; let H := fresh "Hc" in intros ? H; cbv beta in H
+  | |- LexerBase.wp _ (bind (Ok _) _) _ => cbn [bind]
   | |- LexerBase.wp _ (if is_eof _ _ then _ else _) _ =>
       let E := fresh "E" in destruct (is_eof s _) eqn:E; eofs
   | |- LexerBase.wp _ (if ?c then _ else _) _ => let E := fresh "E" in destruct c eqn:E
   end.
 
 Ltac fin := simpl; split; [assumption | lia].
+
+(* turn `pos a < len -> pos b = S (pos a)` into the equation when the premise is known *)
+Ltac posn :=
+  repeat match goal with
+         | H : (pos ?a < len s)%nat -> pos ?b = S (pos ?a) |- _ =>
+             let H' := fresh in assert (H' : (pos a < len s)%nat) by lia; specialize (H H'); clear H'
+         end.
 
 (* ---------------------------------------------------------------- one-byte and two-byte operators *)
 Lemma wp_scan_single : forall t st, inv st -> (pos st < len s)%nat -> wp (scan_single s t st) (sc_post st).
@@ -180,7 +188,7 @@ Proof.
   - simpl. split; [assumption|]. split; [lia|]. discriminate.
   - step. step.
     + apply Z.eqb_eq in E0. subst a.
-      eapply wp_bind; [apply (wp_slice s pan); [unfold len in *; lia | eapply (bd_at s pan); [eassumption | reflexivity] | apply (bd_len s pan)]|].
+      eapply wp_bind; [apply (wp_slice s pan Hgood); [unfold len in *; lia | eapply (bd_at s pan); [eassumption | reflexivity] | apply (bd_len s pan)]|].
       intros _ _. step.
       * simpl. split; [assumption|]. split; [lia|]. intros _. assumption.
       * step. eapply wp_weaken; [apply IH; [assumption|lia]|].
@@ -215,6 +223,162 @@ Proof.
         intros [st3 c] (? & ?). cbn [fst snd] in *. split; [assumption | lia].
       * step. eapply wp_weaken; [apply IH; [assumption | lia | intros Hq; specialize (Hd Hq); lia]|].
         intros [st3 c] (? & ?). cbn [fst snd] in *. split; [assumption | lia].
+Qed.
+
+
+Lemma nth_lt : forall i b, nth_error s i = Some b -> (i < len s)%nat.
+Proof. intros i b H. unfold len. apply nth_error_Some. congruence. Qed.
+
+Lemma opt_is_true : forall o b, opt_is o b = true -> o = Some b.
+Proof. intros [c|] b H; simpl in H; [apply Z.eqb_eq in H; subst; reflexivity | discriminate]. Qed.
+
+(* ---------------------------------------------------------------- quoted strings and identifiers *)
+Lemma wp_scan_quoted : forall q k e st, inv st -> (pos st < len s)%nat ->
+  nth_error s (pos st) = Some q -> is_ascii q = true -> wp (scan_quoted s q k e st) (sc_post st).
+Proof.
+  intros q k e st Hi Hp Hq Ha. unfold scan_quoted. step.
+  eapply wp_bind; [apply wp_quoted_loop; [assumption | unfold lfuel; lia]|].
+  intros [st2 closed] (? & ? & Hc). cbn [fst snd] in *.
+  destruct closed.
+  - destruct (Hc eq_refl) as [Hq2 Hlt]. step. step.
+    + lia.
+    + bdt.
+    + eapply (bd_at s pan); eassumption.
+    + fin.
+  - fin.
+Qed.
+
+Lemma wp_scan_hex_string_literal : forall st, inv st -> (pos st < len s)%nat ->
+  nth_error s (S (pos st)) = Some 39 -> wp (scan_hex_string_literal s st) (sc_post st).
+Proof.
+  intros st Hi Hp Hpk. unfold scan_hex_string_literal. step. posn.
+  assert (pos st0 < len s)%nat by (rewrite H0; eapply nth_lt; eauto).
+  step. posn.
+  eapply wp_bind; [apply wp_hex_lit_loop; [assumption | unfold lfuel; lia]|].
+  intros [st3 bad] (? & ? & Hc). cbn [fst snd] in *.
+  destruct bad; [fin|]. step; [fin|].
+  step.
+  - lia.
+  - match goal with H : forall b, nth_error s (pos st0) = Some b -> _ |- _ => eapply H; [rewrite H0; eassumption | reflexivity] end.
+  - eapply (bd_at s pan); [apply Hc; [reflexivity | assumption] | reflexivity].
+  - step. fin.
+Qed.
+
+Lemma wp_scan_identifier_or_keyword : forall c st, inv st -> (pos st < len s)%nat ->
+  nth_error s (pos st) = Some c -> is_ident_start c = true ->
+  wp (scan_identifier_or_keyword s st) (sc_post st).
+Proof.
+  intros c st Hi Hp Hc Hs. unfold scan_identifier_or_keyword. step.
+  assert (a = c) by congruence. subst a.
+  step.
+  - apply andb_prop in E as [_ E]. apply opt_is_true in E. apply wp_scan_hex_string_literal; assumption.
+  - step. step.
+    + lia.
+    + eapply (bd_at s pan); [eassumption | apply ascii_ident_start; assumption].
+    + match goal with H : _ -> LexerBase.bd s pan (pos st) -> LexerBase.bd s pan (pos st0) |- _ => apply H end.
+      * apply ascii_ident_char.
+      * eapply (bd_at s pan); [eassumption | apply ascii_ident_start; assumption].
+    + assert (pos st < pos st0)%nat.
+      { match goal with H : (exists b, _) -> (pos st < pos st0)%nat |- _ => apply H end.
+        exists c. split; [assumption | apply ident_start_char; assumption]. }
+      step; fin.
+Qed.
+
+(* ---------------------------------------------------------------- numbers *)
+Lemma wp_scan_radix_number : forall p k e x st, inv st -> (pos st < len s)%nat ->
+  nth_error s (S (pos st)) = Some x -> is_ascii x = true ->
+  (forall b, p b = true -> is_ascii b = true) ->
+  wp (scan_radix_number s p k e st) (sc_post st).
+Proof.
+  intros p k e x st Hi Hp Hx Hax Hpa. unfold scan_radix_number. step. posn.
+  assert (pos st0 < len s)%nat by (rewrite H0; eapply nth_lt; eauto).
+  step. posn. step.
+  assert (Hb1 : bd (pos st1)).
+  { match goal with H : forall b, nth_error s (pos st0) = Some b -> _ |- _ => eapply H; [rewrite H0; eassumption | assumption] end. }
+  step; [fin|].
+  step.
+  - lia.
+  - assumption.
+  - match goal with H : _ -> LexerBase.bd s pan (pos st1) -> LexerBase.bd s pan (pos st2) |- _ => apply H; assumption end.
+  - fin.
+Qed.
+
+Lemma wp_scan_exponent : forall st, inv st -> bd (pos st) ->
+  wp (scan_exponent s st) (fun r => inv (fst r) /\ (pos st <= pos (fst r))%nat /\ bd (pos (fst r))).
+Proof.
+  intros st Hi Hb. unfold scan_exponent. step.
+  - ex_bytes. step. posn.
+    assert (Hb0 : bd (pos st0)) by bdt.
+    step.
+    + ex_bytes. step. posn. assert (Hb1 : bd (pos st1)) by bdt.
+      step. simpl. split; [assumption|]. split; [lia|].
+      match goal with H : _ -> LexerBase.bd s pan (pos st1) -> LexerBase.bd s pan (pos st2) |- _ => apply H; [apply ascii_digit | assumption] end.
+    + step. step. simpl. split; [assumption|]. split; [lia|].
+      match goal with H : _ -> LexerBase.bd s pan (pos st0) -> LexerBase.bd s pan (pos st1) |- _ => apply H; [apply ascii_digit | assumption] end.
+  - simpl. split; [assumption|]. split; [lia | assumption].
+Qed.
+
+Lemma wp_scan_number : forall c st, inv st -> (pos st < len s)%nat ->
+  nth_error s (pos st) = Some c -> is_digit c = true -> wp (scan_number s st) (sc_post st).
+Proof.
+  intros c st Hi Hp Hc Hd. unfold scan_number. step.
+  assert (a = c) by congruence. subst a.
+  assert (Hb0 : bd (pos st)) by (eapply (bd_at s pan); [eassumption | apply ascii_digit; assumption]).
+  set (radix := if c =? 48 then _ else _).
+  assert (Hr : radix = 0 \/ (exists x, nth_error s (S (pos st)) = Some x /\ is_ascii x = true)).
+  { subst radix. destruct (c =? 48); [|left; reflexivity].
+    unfold peek_char. destruct (nth_error s (S (pos st))) as [n|] eqn:En; [|left; reflexivity].
+    destruct ((n =? 120) || (n =? 88)) eqn:E1; [right; exists n; split; [reflexivity | cls]|].
+    destruct ((n =? 98) || (n =? 66)) eqn:E2; [right; exists n; split; [reflexivity | cls]|].
+    destruct ((n =? 111) || (n =? 79)) eqn:E3; [right; exists n; split; [reflexivity | cls]|].
+    left; reflexivity. }
+  clearbody radix.
+  step.
+  { destruct Hr as [Hr | (x & Hx & Hax)]; [rewrite Hr in E; discriminate|].
+    eapply wp_scan_radix_number; eauto. apply ascii_hexdigit. }
+  step.
+  { destruct Hr as [Hr | (x & Hx & Hax)]; [rewrite Hr in E0; discriminate|].
+    eapply wp_scan_radix_number; eauto. apply ascii_bindigit. }
+  step.
+  { destruct Hr as [Hr | (x & Hx & Hax)]; [rewrite Hr in E1; discriminate|].
+    eapply wp_scan_radix_number; eauto. apply ascii_octdigit. }
+  step.
+  assert (Hlt : (pos st < pos st0)%nat).
+  { match goal with H : (exists b, _) -> (pos st < pos st0)%nat |- _ => apply H end. exists c. split; assumption. }
+  assert (Hb1 : bd (pos st0)).
+  { match goal with H : _ -> LexerBase.bd s pan (pos st) -> LexerBase.bd s pan (pos st0) |- _ => apply H; [apply ascii_digit | assumption] end. }
+  (* the fractional part *)
+  assert (Hfrac : forall (dot : bool),
+            (if dot then exists b, nth_error s (pos st0) = Some b /\ (46 =? b) = true /\ (pos st0 < len s)%nat else True) ->
+            wp (if dot then
+                  match peek_char s st0 with
+                  | Some n =>
+                      if is_digit n then (do a <- advance s st0; do b <- skip_while s is_digit (lfuel s) a; Ok (b, true))
+                      else if n =? 46 then Ok (st0, false)
+                      else (do a <- advance s st0; Ok (a, true))
+                  | None => Ok (st0, false)
+                  end
+                else Ok (st0, false))
+               (fun r => inv (fst r) /\ (pos st0 <= pos (fst r))%nat /\ bd (pos (fst r)))).
+  { intros dot Hdot. destruct dot; [|simpl; split; [assumption|]; split; [lia | assumption]].
+    destruct Hdot as (b & Hb & Hb46 & Hblt).
+    destruct (peek_char s st0) as [n|]; [|simpl; split; [assumption|]; split; [lia | assumption]].
+    step.
+    - step. posn. assert (bd (pos st1)) by bdt. step. simpl. split; [assumption|]. split; [lia|].
+      match goal with H : _ -> LexerBase.bd s pan (pos st1) -> LexerBase.bd s pan (pos st2) |- _ => apply H; [apply ascii_digit | assumption] end.
+    - step; [simpl; split; [assumption|]; split; [lia | assumption]|].
+      step. posn. simpl. split; [assumption|]. split; [lia | bdt]. }
+  step.
+  - eapply wp_bind; [apply (Hfrac true); assumption|].
+    intros [st2 fl] (? & ? & ?). cbn [fst snd] in *.
+    eapply wp_bind; [apply wp_scan_exponent; assumption|].
+    intros [st3 ex] (? & ? & ?). cbn [fst snd] in *.
+    step; [lia | assumption | assumption |]. fin.
+  - eapply wp_bind; [apply (Hfrac false); exact I|].
+    intros [st2 fl] (? & ? & ?). cbn [fst snd] in *.
+    eapply wp_bind; [apply wp_scan_exponent; assumption|].
+    intros [st3 ex] (? & ? & ?). cbn [fst snd] in *.
+    step; [lia | assumption | assumption |]. fin.
 Qed.
 
 End Scan.
